@@ -44,7 +44,7 @@ def pe_size(pe_data) -> int:
     Otherwise it returns 0. Uses the pefile library to parse the PE.
     """
     try:
-        pe = pefile.PE(data=pe_data)
+        pe = pefile.PE(data=pe_data, fast_load=True)  # only the section table is needed
         return max((section.PointerToRawData + section.SizeOfRawData for section in pe.sections), default=0)
     except pefile.PEFormatError:
         return 0
